@@ -78,7 +78,7 @@ struct Encoding<std::basic_string<CharType, Traits, Allocator>>
 
     // Make sure the reader has enough data to fulfill the requested size as a
     // defense against abusive or erroneous string sizes.
-    status = reader->Ensure(size);
+    status = reader->Ensure(length_bytes);
     if (!status)
       return status;
 
